@@ -41,6 +41,9 @@ func c17Menu(w *wworld.World) []string {
 				ops = append(ops, fmt.Sprintf("lnfinal|%d|%d|S", i, mi), fmt.Sprintf("lnfinal|%d|%d|F", i, mi))
 			}
 			ops = append(ops, fmt.Sprintf("checkmelt|%d|%d", i, mi))
+			if p := w.LN.Payments[m.Hash]; p != nil && p.Attempts < 2 {
+				ops = append(ops, fmt.Sprintf("remelt|%d|%d", i, mi))
+			}
 		}
 		if ww.W.PendingBalance() > 0 {
 			ops = append(ops, fmt.Sprintf("reclaim|%d", i), fmt.Sprintf("rmspent|%d", i))
@@ -76,6 +79,7 @@ func c17Specs(quick bool) []*wSpec {
 	if quick {
 		return []*wSpec{
 			{Prop: "C17", Name: "C17-2w1m-fee100-q", Cfg: two, Init: []string{"mint|0|16"}, Menu: c17Menu, Depth: 3},
+			{Prop: "C17", Name: "C17-pendingmelt-q", Cfg: wworld.Config{FeeA: 0, Wallets: []wworld.WalletCfg{{Default: "a"}}}, Init: []string{"mint|0|16", "melt|0|4|P"}, Menu: c17Menu, Depth: 3},
 			{Prop: "C17", Name: "C17-mintswap-q", Cfg: swapCfg, Init: []string{"mint|0|16", "addmint|0|b"}, Menu: swapMenu, Depth: 2},
 		}
 	}
